@@ -213,7 +213,8 @@ fn gen_key(rng: &mut Rng, host: bool) -> K {
     match rng.below(10) {
         0 => K::Nil,
         1..=4 => K::Int(*rng.pick(&[0i64, 1, 2, 3, 4, 5, 7, 9, -1, 100])),
-        5 => K::Real(*rng.pick(&[1.5f64, -2.25, 3.0, 1.0, 1e10])),
+        // (some of them closer to each other than f64::EPSILON: still different keys)
+        5 => K::Real(*rng.pick(&[1.5f64, -2.25, 3.0, 1.0, 1e10, 0.3, 0.1 + 0.2, 1e-20, 2e-20, 3e-20])),
         _ => K::Str(rng.pick(&["a", "b", "key", "value", "", "k1", "long key with spaces"]).to_string()),
     }
 }
